@@ -648,6 +648,27 @@ class SArr(Sym):
         from . import npspec
         return npspec.reshape(self, (-1,))
 
+    def tobytes(self, order='C'):
+        """opaque hashable value standing for the byte string of the array's current contents (dict / set key);
+        two such keys are never decided equal or different by the engine (a container proxy answers membership symbolically)"""
+        return ArrBytes(self.snapshot())
+
+
+class ArrBytes:
+    """result of SArr.tobytes(): see there"""
+    __slots__ = ('arr',)
+
+    def __init__(self, arr):
+        self.arr = arr
+
+    def __hash__(self):
+        return id(self)
+
+    def __eq__(self, o):
+        if o is self:
+            return True
+        raise OutOfSubset('comparison of array byte strings')
+
 
 def _div_obligation(d):
     vc = cur()
